@@ -33,10 +33,14 @@ namespace cppcms {
 			}
 			void clear()
 			{
-				while(pages_->next) {
-					page *p = pages_;
-					pages_ = pages_->next;
+				// keep the head page: it is the only one known to have page_size_ bytes
+				// (over-sized allocations are linked in behind it and may be smaller)
+				page *p = pages_->next;
+				pages_->next = 0;
+				while(p) {
+					page *next = p->next;
 					free(p);
+					p = next;
 				}
 				data_ = pages_->data;
 				free_space_ = page_size_;
